@@ -114,6 +114,15 @@ def spaces(tier, seed):
                     hi12.append({"kind": "one", "m": m, "w": w, "s": 1,
                                  "spec": {"ny": ny, "nx": nx, "dmin": a, "dmax": b, "seed": seed, "gain": gain,
                                           "offset": offset, "origin": _origin(k)}})
+    # reflectance-like radiometry: the same integer samples scaled by 2^-20 (exact in float32, so the measure is
+    # bit-for-bit the one of the unscaled pair): a correlation must not depend on the radiometric unit
+    for w in (3, 5):
+        for s in SUBPIX:
+            for ny, nx in ((w + 2, w + 4), (w + 9, w + 3)):
+                k += 1
+                hi12.append({"kind": "one", "m": "zncc", "w": w, "s": s,
+                             "spec": {"ny": ny, "nx": nx, "dmin": -2, "dmax": 1, "seed": seed, "gain": 2.0 ** -20,
+                                      "offset": 0, "origin": _origin(k)}})
     # order by interval length over the whole product (simplest first)
     lvl0.sort(key=lambda c: (c["spec"]["dmax"] - c["spec"]["dmin"]))
 
@@ -222,7 +231,7 @@ def spaces(tier, seed):
 
     return [
         {"name": "measure x window x subpix x shape x interval (mono, no mask)", "level": 0, "cases": lvl0},
-        {"name": "12-bit radiometry (bright weakly textured / full range), subpix 1", "level": 1, "cases": hi12},
+        {"name": "radiometric scale: 12-bit (bright weakly textured / full range, subpix 1) and reflectance-like 2^-20 (zncc, subpix 1/2/4)", "level": 1, "cases": hi12},
         {"name": "alphabet images: all 1x2 pairs (w=1), de Bruijn columns (w=3)", "level": 0, "cases": alpha,
          "chunk": 1},
         {"name": "2-band images x selected band x right band order x scalar/constant grid", "level": 1, "cases": bands},
